@@ -7,22 +7,38 @@ What is modelled line by line (src/fandango/language/grammar/parser/iterative_pa
                                  `children[-1]`) parked in the last column of the fragment and re-scanned
                                  with `prefix ++ next fragment`
   * `scan_regex`  → `scanRegex`  one greedy `re.match` length (oracle `full`), the `regex` module's partial
-                                 match (oracle `part`), "a match that does not get past the remembered
-                                 prefix is no match" (`match_length <= prev_match_length`)
-  * `scan_bit`    → `scanBit`    bit `7 - k % 8` of the current unit, next column `k + 1`
+                                 match (oracle `part`); for an INCOMPLETE state "a match that does not get
+                                 past the remembered prefix is no match" (`state.is_incomplete and match and
+                                 match_length <= prev_match_length`, 179bde08) — for a fresh state a match of
+                                 length 0 IS a match, and its state goes to the column being processed
+  * `scan_bit`    → `scanBit`    bit `7 - k % 8` of the current unit, next column `k + 1`; a unit above 0xFF
+                                 (a character beyond Latin-1) has no bits (1ef12755)
   * table offsets: 8 columns per input unit (`table_idx_multiplier`), `(match_length - incomplete_idx) * 8`
-  * `_consume`    → `procCol` / `feedFrom` / `feed`: columns are processed left to right, the word index is
-                    `i / 8` for the `i`-th column of the fragment; the last column of a fragment is kept
-                    *unprocessed* (`self._table[-1] = deepcopy(table[-1])`) and is processed again by the
-                    next `consume`
+  * `_consume`    → `scanEntry` / `procCol` / `feedFrom` / `feed`: a bit terminal is scanned in every column;
+                    text, bytes and regex terminals only in columns `k % 8 == 0` (a33087ac: "in the middle of a
+                    byte, only bits can follow"); columns are processed left to right, the word index is
+                    `i / 8` for the `i`-th column of the fragment; what a scan adds to the column that is being
+                    processed (empty literal, empty regex match, at the end of the fragment the parked state of
+                    an empty partial match) is processed in the same pass (`epsScan`, handed to the closure);
+                    the last column of a fragment is kept *unprocessed* (`self._table[-1] = deepcopy(table[-1])`),
+                    processed once with the fragment exhausted (`at_end`, `lastCol`: the complete parses that
+                    `consume` yields) and processed again from the unprocessed copy by the next `consume`
   * `can_continue` → `canContinue`
 
-What is abstract: the predict/complete closure of one column (`complete`, `predict`, `predict_ctx_rule`,
-`place_repetition_shortcut`) is the parameter `Engine.close : earlier closed columns → seed → closed column`,
+What is abstract: the predict/complete closure of one column (`complete`, `predict` incl. the completion of
+already finished empty derivations of 1d73281f, the `covering` bookkeeping of 73e5ffe3, `predict_ctx_rule`,
+`place_repetition_shortcut`; the rule sets incl. the right-recursive tail of `{n,}` of b48dd899) is the parameter
+`Engine.close : earlier closed columns → same-column scanner → seed → closed column` (the worklist loop
+`for state in table[k]` calls the scanner on every state it visits and visits what the scanner adds to `table[k]`),
 together with `want` (terminal after the dot), `adv` (move the dot over a scanned leaf), `trees` (children of
 finished `<*start*>` items) and `completeOnly` (the completion-only closure `can_continue` runs).  The laws the
 theorems need of it are `Engine.Lawful` (Proofs/Incremental.lean).  `linEngine` is a concrete lawful instance
 (grammars that are finite unions of terminal sequences); the driver runs it against the real parser.
+
+Relation to `Model/Scan.lean` (C05): that file models ONE scan of a fresh state on a whole word (no incomplete
+states, oracle indexed by word position) — the same three scanners restricted to `inc = false`, `rest` = the rest
+of the whole word.  The guards are the same (`p % 8 = 0`, `cell ≤ 255`, empty match is a match); the types differ
+(this file carries the remembered prefix and the parked states, which C05 does not need), so it is not imported.
 
 Input units: code points of a `str` fragment or byte values of a `bytes` fragment (`Terminal.check` compares a
 text literal with `bytes` input through Latin-1, i.e. unit by unit).  Only `starter_bit = -1` (the default of
@@ -70,6 +86,19 @@ structure Entry (ι : Type) where
 
 def Entry.fresh {ι : Type} (i : ι) : Entry ι := ⟨i, false, 0, []⟩
 
+/-- the code shapes of the scanners that `harness/translate_incr.py` reads from the source on every run
+    (`Generated/Incr.lean`); the definitions below are written for `ScanCfg.modelled` -/
+structure ScanCfg where
+  /-- `scan_regex`: `match_length <= prev_match_length` discards a match of an incomplete state only (179bde08) -/
+  emptyMatchIsMatch : Bool
+  /-- `_consume`: text, bytes and regex terminals are scanned in columns `k % 8 == 0` only (a33087ac) -/
+  byteBoundaryGuard : Bool
+  /-- `scan_bit`: a unit above 0xFF has no bits (1ef12755) -/
+  bitRefusesWide : Bool
+  deriving DecidableEq, Repr
+
+def ScanCfg.modelled : ScanCfg := ⟨true, true, true⟩
+
 section scanners
 variable {ι : Type}
 
@@ -98,8 +127,9 @@ def scanRegex (R : ROracle) (adv : ι → Leaf → ι) (md : Mode) (r : Nat) (k 
   let prevLen := if e.inc then e.pre.length else 0
   let fm := R.full r cw
   let tableOffset := fm.getD 0
+  -- `if state.is_incomplete and match and match_length <= prev_match_length: match = False`
   let mtch : Option Nat := match fm with
-    | some m => if m ≤ prevLen then none else some m
+    | some m => if e.inc && decide (m ≤ prevLen) then none else some m
     | none => none
   let pm := R.part r cw
   if mtch.isNone && (pm.isNone || decide (pm.getD 0 + w < len)) then []
@@ -112,14 +142,16 @@ def scanRegex (R : ROracle) (adv : ι → Leaf → ι) (md : Mode) (r : Nat) (k 
      | none => [])
 
 /-- `scan_bit(state, word, table, k, w, bit_count)` with `bit_count = 7 - k % 8`;
-    `state.next()` keeps the flags of the state -/
+    `if byte > 0xFF: return False`; `state.next()` keeps the flags of the state -/
 def scanBit (adv : ι → Leaf → ι) (b : Bool) (k : Nat) (e : Entry ι) (rest : Units) :
     List (Nat × Entry ι) :=
   match rest.head? with
   | none => []
   | some unit =>
-    let bit := (unit >>> (7 - k % 8)) % 2 == 1
-    if bit == b then [(k + 1, ⟨adv e.item (.bit bit), e.inc, e.idx, e.pre⟩)] else []
+    if unit > 255 then []
+    else
+      let bit := (unit >>> (7 - k % 8)) % 2 == 1
+      if bit == b then [(k + 1, ⟨adv e.item (.bit bit), e.inc, e.idx, e.pre⟩)] else []
 
 end scanners
 
@@ -128,8 +160,9 @@ end scanners
 abbrev Col (ι : Type) := List (Entry ι)
 
 structure Engine (ι : Type) where
-  /-- predict/complete closure of a column: earlier (closed) columns, seed ↦ closed column -/
-  close : List (Col ι) → Col ι → Col ι
+  /-- the worklist pass over one column: earlier (closed) columns, what scanning a state adds to THIS column,
+      seed ↦ closed column (closed under predict, complete and the same-column scanner) -/
+  close : List (Col ι) → (Entry ι → List (Entry ι)) → Col ι → Col ι
   /-- the terminal after the dot, if the next symbol is a terminal -/
   want : ι → Option TTerm
   /-- move the dot over a scanned leaf -/
@@ -150,15 +183,26 @@ structure PState (ι : Type) where
 section run
 variable {ι : Type} (eng : Engine ι) (R : ROracle) (md : Mode)
 
+/-- the scanning branch of `_consume` for one state in column `k`: bits in every column,
+    `elif curr_table_idx % 8 != 0: match = False`, else `scan_regex` / `scan_bytes` -/
 def scanEntry (k : Nat) (e : Entry ι) (rest : Units) (w len : Nat) : List (Nat × Entry ι) :=
   match eng.want e.item with
   | none => []
   | some (.bit b) => scanBit eng.adv b k e rest
-  | some (.regex r) => scanRegex R eng.adv md r k e rest w len
-  | some (.lit l) => scanLit eng.adv md l k e rest w len
+  | some (.regex r) => if k % 8 ≠ 0 then [] else scanRegex R eng.adv md r k e rest w len
+  | some (.lit l) => if k % 8 ≠ 0 then [] else scanLit eng.adv md l k e rest w len
 
 def scanCol (col : Col ι) (k : Nat) (word : Units) (w : Nat) : List (Nat × Entry ι) :=
   col.flatMap (fun e => scanEntry eng R md k e (word.drop w) w word.length)
+
+/-- the states among `outs` that were added to column `k` itself -/
+def sameCol (k : Nat) (outs : List (Nat × Entry ι)) : List (Entry ι) :=
+  (outs.filter (fun p => p.1 == k)).map (·.2)
+
+/-- what scanning `e` in column `k` adds to column `k`: `table[k + 0 * 8].add(next_state)` for a match of
+    length 0 (and, with the fragment exhausted, for a partial match that adds nothing to the remembered prefix) -/
+def epsScan (k : Nat) (rest : Units) (w len : Nat) (e : Entry ι) : List (Entry ι) :=
+  sameCol k (scanEntry eng R md k e rest w len)
 
 def seedAt (pend : List (Nat × Entry ι)) (k : Nat) : Col ι :=
   (pend.filter (fun p => p.1 == k)).map (·.2)
@@ -166,7 +210,7 @@ def seedAt (pend : List (Nat × Entry ι)) (k : Nat) : Col ι :=
 /-- process column `k = done.length` with the word index `w` -/
 def procCol (word : Units) (w : Nat) (s : PState ι) : PState ι :=
   let k := s.done.length
-  let col := eng.close s.done (seedAt s.pend k)
+  let col := eng.close s.done (epsScan eng R md k (word.drop w) w word.length) (seedAt s.pend k)
   ⟨s.done ++ [col], s.pend ++ scanCol eng R md col k word w⟩
 
 /-- process `n` columns, the first of which is the `i`-th column of the fragment -/
@@ -178,13 +222,15 @@ def feedFrom (word : Units) : Nat → Nat → PState ι → PState ι
 def feed (s : PState ι) (word : Units) : PState ι :=
   feedFrom eng R md word 0 (8 * word.length) s
 
-/-- the last column as `consume` processes it when the fragment is exhausted (`at_end`) -/
+/-- the last column as `consume` processes it when the fragment is exhausted (`at_end`: nothing is left of the
+    fragment, `w = len(word)`; the scanners only compare `w` with `len`, so `0 0` stands for `len len` —
+    `Proofs/Incremental.lean: scanEntry_atEnd`) -/
 def lastCol (s : PState ι) : Col ι :=
-  eng.close s.done (seedAt s.pend s.done.length)
+  eng.close s.done (epsScan eng R md s.done.length [] 0 0) (seedAt s.pend s.done.length)
 
 /-- the complete parses `consume` yields for the last fragment -/
 def completeParses (s : PState ι) : List Tree :=
-  eng.trees (lastCol eng s)
+  eng.trees (lastCol eng R md s)
 
 /-- the resumable (incomplete-terminal) states waiting in the last column -/
 def resumable (s : PState ι) : Col ι :=
@@ -208,8 +254,17 @@ structure LinItem where
   kids : List Leaf
   deriving DecidableEq, Repr
 
+/-- strictly decreasing along every chain of same-column scans: an advanced item has a shorter rest, a parked
+    state keeps the item and sets the flag -/
+def linMeasure (e : Entry LinItem) : Nat := 2 * e.item.rest.length + (if e.inc then 0 else 1)
+
+/-- everything the same-column scanner `f` reaches from `e` (fuel = `linMeasure e` is never exhausted) -/
+def linReach (f : Entry LinItem → List (Entry LinItem)) : Nat → Entry LinItem → List (Entry LinItem)
+  | 0, e => [e]
+  | n + 1, e => e :: ((f e).filter (fun x => linMeasure x < linMeasure e)).flatMap (linReach f n)
+
 def linEngine : Engine LinItem where
-  close := fun _ s => s
+  close := fun _ f s => s.flatMap (fun e => linReach f (linMeasure e) e)
   want := fun i => i.rest.head?
   adv := fun i l => ⟨i.rest.tail, i.kids ++ [l]⟩
   finished := fun i => i.rest.isEmpty
